@@ -111,6 +111,14 @@ var abstractCtor2 = map[string]bool{}
 
 func registerAbstractCtor2(pkg, fn string) { abstractCtor2[modPath+"/"+pkg+"."+fn] = true }
 
+// registerFreshAlloc2: a function / method ("Recv.name") that returns a pointer to a FRESH zero value
+// of a translated struct that nothing else refers to (an allocator: a slab, a pool). Trusted; its
+// other effects (the allocator's own bookkeeping) are not modelled. A local initialised from it
+// may be written through.
+var freshAlloc2 = map[string]bool{}
+
+func registerFreshAlloc2(pkg, fn string) { freshAlloc2[modPath+"/"+pkg+"."+fn] = true }
+
 // registerSum2: a closed interface modelled as a sum type of the listed implementations ("T" or
 // "*T", struct types of translated packages); nil is its own constructor. Method calls on a value
 // of the interface dispatch on the constructor (nil receiver = GPanic).
@@ -211,12 +219,16 @@ type fctx struct {
 }
 
 type tr2 struct {
-	g        *v2
-	info     *types.Info
-	pkg      *types.Package
-	mod      string
-	tmp      int
-	fresh    map[types.Object]bool
+	g     *v2
+	info  *types.Info
+	pkg   *types.Package
+	mod   string
+	tmp   int
+	fresh map[types.Object]bool
+	// positions at which a make-created slice is copied into another variable / a literal: a write
+	// is accepted only if every copy happens after it (and after the loop that contains it)
+	aliasAt  map[types.Object][]token.Pos
+	loops    []ast.Node
 	sig      *types.Signature
 	errs     []string
 	stubOnly bool
@@ -757,6 +769,8 @@ func (t *tr2) function(fd *ast.FuncDecl) string {
 	t.sig = sig
 	t.tmp = 0
 	t.fresh = map[types.Object]bool{}
+	t.aliasAt = map[types.Object][]token.Pos{}
+	t.loops = nil
 	if !t.stubOnly { // a refused body is not looked at again: only the signature matters for the stub
 		t.checkShadow(fd)
 		t.findFresh(fd)
@@ -847,7 +861,8 @@ func (t *tr2) checkShadow(fd *ast.FuncDecl) {
 			return true
 		}
 		for s := v.Parent().Parent(); s != nil && s != t.pkg.Scope() && s != types.Universe; s = s.Parent() {
-			if o, ok := s.Lookup(id.Name).(*types.Var); ok && o != v {
+			if o, ok := s.Lookup(id.Name).(*types.Var); ok && o != v && o.Pos() < v.Pos() {
+				// (an outer variable declared LATER is not in scope here: no shadowing)
 				t.fail(id, "local %s shadows another local of the same function", id.Name)
 			}
 		}
@@ -859,6 +874,13 @@ func (t *tr2) checkShadow(fd *ast.FuncDecl) {
 // are never copied to another variable (their pointee cannot be observed through an alias).
 func (t *tr2) findFresh(fd *ast.FuncDecl) {
 	bad := map[types.Object]bool{}
+	markAlias := func(o types.Object, at token.Pos) {
+		if isSlice(o.Type()) {
+			t.aliasAt[o] = append(t.aliasAt[o], at) // position-sensitive: see checkWritable
+		} else {
+			bad[o] = true
+		}
+	}
 	aliasOf := func(e ast.Expr) types.Object {
 		for {
 			switch x := e.(type) {
@@ -889,7 +911,7 @@ func (t *tr2) findFresh(fd *ast.FuncDecl) {
 							continue
 						}
 					}
-					bad[o] = true
+					markAlias(o, r.Pos())
 				}
 				if x.Tok == token.DEFINE && i < len(x.Lhs) {
 					if id, ok := x.Lhs[i].(*ast.Ident); ok {
@@ -901,6 +923,15 @@ func (t *tr2) findFresh(fd *ast.FuncDecl) {
 							}
 						}
 						if call, ok := r.(*ast.CallExpr); ok {
+							if sel, ok := call.Fun.(*ast.SelectorExpr); ok {
+								if s := t.info.Selections[sel]; s != nil && s.Kind() == types.MethodVal {
+									if m, ok := s.Obj().(*types.Func); ok && m.Pkg() != nil && freshAlloc2[m.Pkg().Path()+"."+recvName(m)+m.Name()] {
+										if o := t.info.Defs[id]; o != nil {
+											t.fresh[o] = true
+										}
+									}
+								}
+							}
 							if f, ok := call.Fun.(*ast.Ident); ok && f.Name == "make" {
 								if o := t.info.Defs[id]; o != nil {
 									t.fresh[o] = true
@@ -916,13 +947,13 @@ func (t *tr2) findFresh(fd *ast.FuncDecl) {
 					el = kv.Value
 				}
 				if o := aliasOf(el); o != nil {
-					bad[o] = true
+					markAlias(o, el.Pos())
 				}
 			}
 		case *ast.ValueSpec:
 			for _, v := range x.Values {
 				if o := aliasOf(v); o != nil {
-					bad[o] = true
+					markAlias(o, v.Pos())
 				}
 			}
 		}
